@@ -192,6 +192,12 @@ def gen_calls(rng, prog, cfg):
             calls.append({'solver': sv, 'display': rng.random() < 0.3, 'log': rng.random() < 0.2, 'fault': f})
             if rng.random() < 0.25:
                 calls.append({'solver': sv, 'display': rng.random() < 0.3})
+        if sv == 'grb' and rng.random() < 0.7:
+            # engine parameters belong to the call they are passed to: the next parameter-free call must be unaffected
+            calls.append({'solver': 'grb', 'display': rng.random() < 0.3, 'log': rng.random() < 0.3, 'param_call': True,
+                          'params': rng.choice([{'MIPGap': 0.5}, {'SolutionLimit': 1}, {'TimeLimit': 0.0}, {'IterationLimit': 0},
+                                                {'NodeLimit': 0, 'Heuristics': 0}, {'Presolve': 0}, {'Method': 0}])})
+            calls.append({'solver': 'grb', 'display': False})
         # environment faults on an otherwise healthy call
         if rng.random() < 0.5:
             calls.append({'solver': sv, 'display': True, 'fault': {'kind': 'stdout_broken', 'nth': rng.randint(1, 3)}})
@@ -292,6 +298,11 @@ def claims_solution(it, prog):
         opt = bool(it.env['m'].optimal())
     except Exception:
         opt = None
+    try:
+        g = it.env['m'].get()
+        readable.append('model.get()=%r' % (g,))     # returning anything (even NaN) instead of raising
+    except Exception:
+        pass
     return st, readable, opt
 
 
@@ -382,6 +393,11 @@ def check_case(case, props):
                              % (sv, {k: v for k, v in fault.items()}, st.get('obj'), readable, opt), tags)
                 after_failure = True
                 continue
+            if call.get('param_call'):
+                # the parameters may legitimately stop the engine early; nothing is judged on this call itself
+                stats['probes']['grb_param_call'] = stats['probes'].get('grb_param_call', 0) + 1
+                after_failure = True
+                continue
             if call.get('real_limit'):
                 # real engine stopped by SolutionLimit: Status 10 means no optimum was reached
                 stats['probes']['real_grb_solution_limit'] = 1
@@ -417,7 +433,7 @@ def check_case(case, props):
             if st['sol'] != 'opt':
                 inconc('healthy_not_optimal:%s:%s' % (sv, st.get('status')))
                 continue
-            if opt is not True or set(readable) != set(prog['vars']):
+            if opt is not True or set(r_ for r_ in readable if not r_.startswith('model.get()')) != set(prog['vars']):
                 viol('optimal-not-readable', '%s returned optimal but optimal()=%s, readable variables %s of %s'
                      % (sv, opt, readable, prog['vars']), [eng])
                 break
@@ -433,6 +449,20 @@ def check_case(case, props):
             if abs(ov - float(sol_after.objval)) > tol * 10 * (1 + abs(ov)):
                 viol('objective-inconsistent', '%s: objval %.9g but obj @ x = %.9g' % (sv, sol_after.objval, ov), [eng])
                 break
+            # model.get() is the user's objective (user sense) at the values read back through the variables
+            try:
+                from sim.astx import evalnum
+                vals = {nm: np.asarray(it.env[nm].get(), float) for nm in prog['vars']}
+                if prog['variant'] == 'unbounded':
+                    vals['u'] = np.asarray(it.env['u'].get(), float)
+                oast = [o for o in prog['ops'] if o['op'] == 'obj'][0]['e']
+                uo = float(np.asarray(evalnum(oast, vals)).reshape(-1)[0])
+                if abs(uo - st['obj']) > tol * 10 * (1 + abs(uo)):
+                    viol('get-vs-readback', '%s: model.get() = %.9g but the objective expression at the values returned by the '
+                         'variables is %.9g (sense %s)' % (sv, st['obj'], uo, prog['sense']), [eng])
+                    break
+            except KeyError:
+                pass
             if after_failure:
                 stats['recovery_checks'] += 1
                 after_failure = False
